@@ -36,6 +36,8 @@ PROPERTY = "C04"
 RUNS = {"quick": 6_000, "thorough": 4_000_000}
 WALL = {"quick": 50, "thorough": 1500}
 BATCH = {"quick": 100, "thorough": 1000}
+CPU_LIMIT_S = 60          # a generated program is a few hundred deliveries: milliseconds of CPU
+TIMEOUT_SIG = "run-does-not-terminate"
 RULE = (
     "each case is a generated script program (as in C01) plus a generated control script of up to 14 calls "
     "(pause requested from an event hook at a chosen delivery index, step(n), resume, Time/EventCount/EventType/"
